@@ -19,6 +19,9 @@ enum Method {
     // serialisation hits a non-string map key after `name`
     #[serde(rename = "org.example.Bad")]
     Bad { name: String, m: BTreeMap<bool, u32>, tail: String },
+    // a float as the last member (number formatting needs no more room than the digits it writes)
+    #[serde(rename = "org.example.Level")]
+    Level { name: String, level: f64 },
     // serialisation is refused by the value itself (a custom serde error) after `name`
     #[serde(rename = "org.example.Fail")]
     Fail { name: String, bad: Failing, tail: String },
@@ -115,6 +118,14 @@ fn mk_msg(spec: &Value) -> Msg {
             Msg::Call(c)
         }
         "ping" => Msg::Call(Call::new(Method::Ping)),
+        "fcall" => {
+            let levels = [1.5, 0.0, -2.25, 1e300, 123456789.125, 5e-324, -0.0, 3.0];
+            let mut c = Call::new(Method::Level { name: text, level: levels[(seed % 8) as usize] });
+            if seed % 4 == 2 {
+                c = c.set_more(true);
+            }
+            Msg::Call(c)
+        }
         "failcall" => {
             let mut c = Call::new(Method::Fail { name: text, bad: Failing, tail: "t".repeat((seed % 300) as usize) });
             match seed % 4 {
@@ -221,6 +232,13 @@ fn run_case(case: &Value) -> Value {
             "flush" => {
                 oracles.push(Value::Null);
                 res_name(&block(conn.flush()).expect("flush pending"))
+            }
+            // split the connection into its halves and join them again: the write queue is untouched
+            "rejoin" => {
+                oracles.push(Value::Null);
+                let (r, w) = conn.split();
+                conn = Connection::join(r, w);
+                "ok".into()
             }
             // the chain entry point shares the queue: starting a chain enqueues its first call
             // ("cenq": the chain is then abandoned; "csend": it is sent, i.e. enqueue + flush)
